@@ -197,52 +197,76 @@ def HRel (lv : Lv) (σ : Subst) (π : Nat → Nat) (D : Nat → Prop) (g : Term 
       ((∃ x, g.1 = .app "call" (.cons x .nil)) ∧ fr = SLD.Frame.goal (SLD.call1 (img σ π g.1)) l)) ∧
     (g.1 = .atom "!" → lv.lev g.2 = some l)
 
-/-- the pending goals `G` of the VM and the resolvent `R` of the reference -/
-inductive GRel (lv : Lv) (σ : Subst) (π : Nat → Nat) (D : Nat → Prop) : List (Term × Nat) → List SLD.Frame → Prop
-  | nil : GRel lv σ π D [] []
-  | skip {G : List (Term × Nat)} {R : List SLD.Frame} (l : Nat) : GRel lv σ π D G R → GRel lv σ π D G (skipF l :: R)
-  | cons {g : Term × Nat} {G : List (Term × Nat)} {fr : SLD.Frame} {R : List SLD.Frame} :
-      HRel lv σ π D g fr → GRel lv σ π D G R → GRel lv σ π D (g :: G) (fr :: R)
+/-- the bottom of the resolvent: empty for the search of the query (`mo = none`); for the search
+    nested in `\\+ G` — the reference runs `(call(G) -> fail ; true)`, whose cut has level `dN` —
+    the rest of the then-branch (`mo = some dN`) -/
+def TailOK (mo : Option Nat) (R : List SLD.Frame) : Prop :=
+  match mo with
+  | none => R = []
+  | some dN => ∃ l Rout, R = .goal (.atom "!") dN :: .goal (SLD.call1 (.atom "fail")) l :: Rout
 
-theorem GRel.map {lv lv' : Lv} {σ σ' : Subst} {π π' : Nat → Nat} {D D' : Nat → Prop} {G : List (Term × Nat)}
+/-- the pending goals `G` of the VM and the resolvent `R` of the reference -/
+inductive GRel (mo : Option Nat) (lv : Lv) (σ : Subst) (π : Nat → Nat) (D : Nat → Prop) :
+    List (Term × Nat) → List SLD.Frame → Prop
+  | nil {R : List SLD.Frame} : TailOK mo R → GRel mo lv σ π D [] R
+  | skip {G : List (Term × Nat)} {R : List SLD.Frame} (l : Nat) : GRel mo lv σ π D G R → GRel mo lv σ π D G (skipF l :: R)
+  | cons {g : Term × Nat} {G : List (Term × Nat)} {fr : SLD.Frame} {R : List SLD.Frame} :
+      HRel lv σ π D g fr → GRel mo lv σ π D G R → GRel mo lv σ π D (g :: G) (fr :: R)
+
+theorem GRel.map {mo : Option Nat} {lv lv' : Lv} {σ σ' : Subst} {π π' : Nat → Nat} {D D' : Nat → Prop} {G : List (Term × Nat)}
     {R : List SLD.Frame} (f : SLD.Frame → SLD.Frame) (hs : ∀ l, f (skipF l) = skipF l)
-    (h : GRel lv σ π D G R) (hH : ∀ g ∈ G, ∀ fr, HRel lv σ π D g fr → HRel lv' σ' π' D' g (f fr)) :
-    GRel lv' σ' π' D' G (R.map f) := by
+    (ht : ∀ R, TailOK mo R → TailOK mo (R.map f))
+    (h : GRel mo lv σ π D G R) (hH : ∀ g ∈ G, ∀ fr, HRel lv σ π D g fr → HRel lv' σ' π' D' g (f fr)) :
+    GRel mo lv' σ' π' D' G (R.map f) := by
   induction h with
-  | nil => exact .nil
+  | nil hR => exact .nil (ht _ hR)
   | skip l _ ih => rw [List.map_cons, hs]; exact .skip l (ih hH)
   | cons hd _ ih =>
     exact .cons (hH _ (by simp) _ hd) (ih (fun g hg => hH g (by simp [hg])))
 
-theorem GRel.imp {lv lv' : Lv} {σ σ' : Subst} {π π' : Nat → Nat} {D D' : Nat → Prop} {G : List (Term × Nat)}
-    {R : List SLD.Frame} (h : GRel lv σ π D G R)
-    (hH : ∀ g ∈ G, ∀ fr, HRel lv σ π D g fr → HRel lv' σ' π' D' g fr) : GRel lv' σ' π' D' G R := by
-  have := h.map (lv' := lv') (σ' := σ') (π' := π') (D' := D') id (fun _ => rfl) hH
+theorem GRel.imp {mo : Option Nat} {lv lv' : Lv} {σ σ' : Subst} {π π' : Nat → Nat} {D D' : Nat → Prop} {G : List (Term × Nat)}
+    {R : List SLD.Frame} (h : GRel mo lv σ π D G R)
+    (hH : ∀ g ∈ G, ∀ fr, HRel lv σ π D g fr → HRel lv' σ' π' D' g fr) : GRel mo lv' σ' π' D' G R := by
+  have := h.map (lv' := lv') (σ' := σ') (π' := π') (D' := D') id (fun _ => rfl) (fun R hR => by simpa using hR) hH
   simpa using this
 
-theorem GRel.append {lv : Lv} {σ : Subst} {π : Nat → Nat} {D : Nat → Prop} {G1 G2 : List (Term × Nat)}
-    {R1 R2 : List SLD.Frame} (h1 : GRel lv σ π D G1 R1) (h2 : GRel lv σ π D G2 R2) :
-    GRel lv σ π D (G1 ++ G2) (R1 ++ R2) := by
+theorem GRel.append {mo : Option Nat} {lv : Lv} {σ : Subst} {π : Nat → Nat} {D : Nat → Prop} {G1 G2 : List (Term × Nat)}
+    {R1 R2 : List SLD.Frame} (h1 : GRel none lv σ π D G1 R1) (h2 : GRel mo lv σ π D G2 R2) :
+    GRel mo lv σ π D (G1 ++ G2) (R1 ++ R2) := by
   induction h1 with
-  | nil => exact h2
+  | nil hR =>
+    have : _ = [] := hR
+    subst this
+    exact h2
   | skip l _ ih => exact .skip l ih
   | cons hd _ ih => exact .cons hd ih
 
 theorem GRel.of_forall2 {lv : Lv} {σ : Subst} {π : Nat → Nat} {D : Nat → Prop} {G : List (Term × Nat)}
-    {R : List SLD.Frame} (h : Forall2 (HRel lv σ π D) G R) : GRel lv σ π D G R := by
+    {R : List SLD.Frame} (h : Forall2 (HRel lv σ π D) G R) : GRel none lv σ π D G R := by
   induction h with
-  | nil => exact .nil
+  | nil => exact .nil rfl
   | cons hd _ ih => exact .cons hd ih
+
+theorem tailOK_subst {mo : Option Nat} (θ : List (Nat × Term)) (R : List SLD.Frame) (h : TailOK mo R) :
+    TailOK mo (R.map (SLD.Frame.subst θ)) := by
+  cases mo with
+  | none =>
+    have : R = [] := h
+    subst this; exact rfl
+  | some dN =>
+    obtain ⟨l, Rout, rfl⟩ := h
+    exact ⟨l, Rout.map (SLD.Frame.subst θ), by
+      simp [SLD.Frame.subst, applySubst_eq, SLD.call1, Term.subst, Args.subst]⟩
 
 theorem skipF_subst (θ : List (Nat × Term)) (l : Nat) : SLD.Frame.subst θ (skipF l) = skipF l := by
   simp [skipF, SLD.Frame.subst, applySubst_eq, SLD.call1, Term.subst, Args.subst]
 
-theorem GRel.step {lv : Lv} {σ σ' : Subst} {π π' : Nat → Nat} {D D' : Nat → Prop} {G : List (Term × Nat)}
+theorem GRel.step {mo : Option Nat} {lv : Lv} {σ σ' : Subst} {π π' : Nat → Nat} {D D' : Nat → Prop} {G : List (Term × Nat)}
     {R : List SLD.Frame}
-    (h : GRel lv σ π D G R) (hD : ∀ v, D v → D' v) (θ : List (Nat × Term))
+    (h : GRel mo lv σ π D G R) (hD : ∀ v, D v → D' v) (θ : List (Nat × Term))
     (heq : ∀ t, InD D t → img σ' π' t = (img σ π t).subst (substOf θ)) :
-    GRel lv σ' π' D' G (R.map (SLD.Frame.subst θ)) := by
-  refine h.map _ (skipF_subst θ) ?_
+    GRel mo lv σ' π' D' G (R.map (SLD.Frame.subst θ)) := by
+  refine h.map _ (skipF_subst θ) (tailOK_subst θ) ?_
   rintro g _ fr ⟨hg, l, hfr, hl⟩
   refine ⟨fun v hv => hD v (hg v hv), l, ?_, hl⟩
   rcases hfr with rfl | ⟨hne, rfl⟩
@@ -300,7 +324,7 @@ theorem thunk_head' {fl : Bool} {tmpl : Term} {max : Nat} {cl : Clause} {h b : T
           ∃ σ' π' D' G1, SimW tmpl N' env' σ' π' D' nv' ∧
             (∀ v, D v → D' v) ∧
             (∀ t, InD D t → img σ' π' t = (img σ π t).subst τ2) ∧
-            (∀ G, ContGoals fl tmpl max K G → ContGoals fl tmpl max K1 (G1 ++ G)) ∧
+            (∀ G, ContGoals fl mo tmpl max K G → ContGoals fl mo tmpl max K1 (G1 ++ G)) ∧
             Forall2 (fun g1 bg => InD D' g1.1 ∧ g1.2 = id ∧ img σ' π' g1.1 = (bg.rename κ).subst τ2 ∧
               ∃ ρ', g1.1 = bg.rename ρ') G1 Bs ∧
             (∀ v, D' v → D v ∨ ∃ x, (h.hasVar x = true ∨ b.hasVar x = true) ∧
@@ -425,7 +449,7 @@ theorem thunk_head {fl : Bool} {tmpl : Term} {max : Nat} {cl : Clause} {h b : Te
           ∃ σ' π' D' G1, SimW tmpl N' env' σ' π' D' (nv + SLD.maxVar (SLD.rule h b)) ∧
             (∀ v, D v → D' v) ∧
             (∀ t, InD D t → img σ' π' t = (img σ π t).subst (substOf θ2)) ∧
-            (∀ G, ContGoals fl tmpl max K G → ContGoals fl tmpl max K1 (G1 ++ G)) ∧
+            (∀ G, ContGoals fl mo tmpl max K G → ContGoals fl mo tmpl max K1 (G1 ++ G)) ∧
             Forall2 (fun g1 bg => InD D' g1.1 ∧ g1.2 = id ∧
               img σ' π' g1.1 = (SLD.shift nv bg).subst (substOf θ2) ∧ ∃ ρ', g1.1 = bg.rename ρ') G1 Bs) := by
   have hlt : ∀ x, (h.hasVar x = true ∨ b.hasVar x = true) → x < SLD.maxVar (SLD.rule h b) := by
